@@ -81,6 +81,11 @@ type PercoDesc struct {
 	Shared bool `json:"shared,omitempty"`
 	// Race: two concurrent requests after the setup Reqs (see fam_perco_race.go).
 	Race *RaceDesc `json:"race,omitempty"`
+	// Limits (fault cases): hot-key write limit in force for each request; FStart/FCommit: the
+	// transaction whose records are observed after every step (see fam_perco_fault.go).
+	Limits  []int `json:"limits,omitempty"`
+	FStart  U64   `json:"fstart,omitempty"`
+	FCommit U64   `json:"fcommit,omitempty"`
 }
 
 // Keys and values are raw byte strings; JSON cannot carry invalid UTF-8, so a PercoDesc is written
@@ -121,7 +126,7 @@ func (d PercoDesc) mapStrings(f func(string) string) PercoDesc {
 		}
 		return q
 	}
-	o := PercoDesc{Keys: ml(d.Keys), Gen: d.Gen, Shared: d.Shared}
+	o := PercoDesc{Keys: ml(d.Keys), Gen: d.Gen, Shared: d.Shared, Limits: d.Limits, FStart: d.FStart, FCommit: d.FCommit}
 	for _, r := range d.Reqs {
 		o.Reqs = append(o.Reqs, mr(r))
 	}
@@ -259,6 +264,8 @@ func keyErrCoq(e *pb.KeyError) (string, bool) {
 	case e.GetCommitTsExpired() != nil:
 		c := e.GetCommitTsExpired()
 		return fmt.Sprintf("(EExp %s %d %d)", hx(c.GetKey()), c.GetCommitTs(), c.GetMinCommitTs()), true
+	case e.GetRetryable() != "":
+		return "KERetryable", true
 	case e.GetAbort() != "":
 		m := e.GetAbort()
 		switch {
@@ -471,7 +478,7 @@ func withPrefix(d PercoDesc, n int) PercoDesc {
 		}
 		return q
 	}
-	o := PercoDesc{Keys: ren(d.Keys), Gen: d.Gen, Shared: true}
+	o := PercoDesc{Keys: ren(d.Keys), Gen: d.Gen, Shared: true, Limits: d.Limits, FStart: d.FStart, FCommit: d.FCommit}
 	for _, r := range d.Reqs {
 		o.Reqs = append(o.Reqs, rr(r))
 	}
@@ -724,6 +731,9 @@ func runPerco(c *corr.Ctx) error {
 		races := raceCases()
 		descs = append(descs, races...)
 		c.CountN("race_cases", len(races))
+		faults := faultCases(depth)
+		descs = append(descs, faults...)
+		c.CountN("fault_cases", len(faults))
 		n := c.Scale(700, 12000)
 		for i := 0; i < n; i++ {
 			descs = append(descs, genInterleaved(c))
@@ -732,7 +742,7 @@ func runPerco(c *corr.Ctx) error {
 		c.Meta("exhaustive", true)
 		c.Meta("exhaustive_scope", fmt.Sprintf("every sequence of length <= %d over 11 protocol events (prewrite put+lock-only, commit, rollback, resolve-commit, resolve-rollback, check-txn-status expired / alive / from a caller below the lock's start ts / at the start ts, competing delete txn prewrite + commit) of a transaction 10..20 above a committed base value, followed by GET at 9/15/25, 13/25 and two SCANs", depth))
 	}
-	c.Meta("rule", "request sequences over 3 keys (3 key alphabets incl. prefix-related keys and 0x00/0xff bytes) and 2-4 transactions with distinct timestamps in 1..40: random interleavings of prewrite / commit / rollback / resolve(commit|rollback) / check-txn-status (current ts 0, below / at / above the lock's start ts, before / at / after the expiry point, 2^64-1; ttl 0, small, 2^63 and values for which start+ttl wraps mod 2^64; caller ts below and above commit and 2^64-1; plus a ttl x current-ts grid of 168 cases) with duplicates and missing prewrites, put / delete / lock-only mutations, GET and SCAN (start key, include flag, limit 0..10) at random versions between the events; every step compares the canonicalised response and reader.GetLock of all 3 keys with the model and with the protocol specification. Races: 17 request pairs (commit / rollback / resolve / prewrite / competing prewrite vs check-txn-status pushing MinCommitTs or expired, and write vs write) x both roles: one request is in flight (the harness holds its key latches) when the other arrives and must block in latch.Acquire; the two responses, the locks afterwards and the following reads must be one of the two serial orders, and an acknowledged Commit's lock must be gone. non-trivial = the case contains at least one key error response and one read returning a value")
+	c.Meta("rule", "request sequences over 3 keys (3 key alphabets incl. prefix-related keys and 0x00/0xff bytes) and 2-4 transactions with distinct timestamps in 1..40: random interleavings of prewrite / commit / rollback / resolve(commit|rollback) / check-txn-status (current ts 0, below / at / above the lock's start ts, before / at / after the expiry point, 2^64-1; ttl 0, small, 2^63 and values for which start+ttl wraps mod 2^64; caller ts below and above commit and 2^64-1; plus a ttl x current-ts grid of 168 cases) with duplicates and missing prewrites, put / delete / lock-only mutations, GET and SCAN (start key, include flag, limit 0..10) at random versions between the events; every step compares the canonicalised response and reader.GetLock of all 3 keys with the model and with the protocol specification. Storage faults: transaction 10->30 on a put and a delete key; every pair (thorough: triple) of protocol events with the first running under a hot-key write limit of 1..3 (and the prewrite under 1..4), so that a DB write inside prewriteMutation / commitKey / rollbackKey / the MinCommitTs push is refused and the step leaves a prefix of its writes, followed by unlimited retries of commit / status check / resolve / rollback and reads; per step the response, the locks, reader.GetWriteByStartTs and reader.GetValue at the commit version are compared with the fault-aware model, and a history-only oracle checks that a key once seen committed (or rolled back) stays so with its value. Races: 17 request pairs (commit / rollback / resolve / prewrite / competing prewrite vs check-txn-status pushing MinCommitTs or expired, and write vs write) x both roles: one request is in flight (the harness holds its key latches) when the other arrives and must block in latch.Acquire; the two responses, the locks afterwards and the following reads must be one of the two serial orders, and an acknowledged Commit's lock must be gone. non-trivial = the case contains at least one key error response and one read returning a value")
 
 	type res struct {
 		term string
@@ -770,8 +780,8 @@ func runPerco(c *corr.Ctx) error {
 			}
 			defer closeDB()
 			for i := range jobs {
-				if descs[i].Race != nil {
-					continue // races run afterwards, one at a time
+				if descs[i].Race != nil || descs[i].Limits != nil {
+					continue // races and fault cases run afterwards, one at a time
 				}
 				st := percoStats{kinds: map[string]int{}}
 				var use *NoKV.DB
@@ -812,6 +822,27 @@ func runPerco(c *corr.Ctx) error {
 	if rdb != nil {
 		rdb.Close()
 		os.RemoveAll(rdir)
+	}
+	// fault cases: one DB with the hot-key ring on, write limit switched per request
+	var fw *faultWorld
+	for i := range descs {
+		if descs[i].Limits == nil {
+			continue
+		}
+		if fw == nil {
+			if fw, err = openFaultWorld(tmp); err != nil {
+				return err
+			}
+		}
+		term, refused := fw.runFaultCase(descs[i])
+		st := percoStats{kinds: map[string]int{"fault_case": 1}, nontrivial: refused}
+		if refused {
+			st.kinds["fault_case_with_refused_write"] = 1
+		}
+		results[i] = res{term, st, nil}
+	}
+	if fw != nil {
+		fw.close()
 	}
 	for i, r := range results {
 		if r.err != nil {
